@@ -70,3 +70,13 @@ Theorem C04_old_code_refuted :
   max_step Z.leb 3 usize_max true {| time := usize_max - 1; taps := [(10%Z, usize_max - 2)] |} 5%Z = None.
 Proof. exact old_code_refuted. Qed.
 Print Assumptions C04_old_code_refuted.
+
+(* ---- bridge: the boolean spec evaluated by the correspondence check is satisfied by the model on every input ---- *)
+From Signalo Require Spec.C03 Spec.C04 Spec.C10 Check.Common Check.C15 Proofs.Bridge.
+(* C04: every output of the max / min model is accepted by is_maxb on the window (fresh filter, 64-bit word) *)
+Theorem C04_model_passes_boolean_spec : forall n hist x s s' y, (1 <= n)%N -> (n + 1 <= Bounds.usize_max)%N ->
+  oexec (Bounds.max_step Z.leb n Bounds.usize_max false) Bounds.init hist = Some s ->
+  Bounds.max_step Z.leb n Bounds.usize_max false s x = Some (s', y) ->
+  Signalo.Spec.C04.is_maxb Z.leb Z.eqb (lastn (N.to_nat n) (hist ++ [x])) y = true.
+Proof. exact Signalo.Proofs.Bridge.bridge_c04. Qed.
+Print Assumptions C04_model_passes_boolean_spec.
